@@ -78,18 +78,23 @@ def run(ctx):
                   f"`{dump(c)}` overrides limit/fold_sep: the bound is proved "
                   f"for the defaults only", g.loc(c), detail="foldline(self)")
     if not callers:
-        raise AnalysisError("foldline has no caller in the package")
-
-    # ---- shape-specific rules (ASCII fast path + one character loop) ---------
-    try:
-        _shape_rules(ctx, m, f, line_p, limit_p, sep_p, limit, sep, tail_octets)
-        shape_ok = True
-    except AnalysisError as e:
-        shape_ok = False
-        ctx.note(f"shape-specific fold rules not applicable ({e}); the general abstract "
-                 f"execution below decides the octet bound")
-    # ---- BOUND-GENERAL: abstract execution on A^n . R ---------------------------
-    _general(ctx, m, f, limit, sep, required=not shape_ok)
+        # the serialiser does not fold through foldline: nothing proved about foldline says
+        # anything about the bytes that are written
+        ctx.note("foldline is not called by the serialiser of this tree: the symbolic rules about "
+                 "foldline do not apply; the fold laws are decided on Contentline.to_ical itself by "
+                 "C06/PHYS-MODEL (bounded) only - the 'proof' level does not hold for this tree")
+        ctx.extra["bound_decided_by"] = "PHYS-MODEL only"
+    else:
+        # ---- shape-specific rules (ASCII fast path + one character loop) ---------
+        try:
+            _shape_rules(ctx, m, f, line_p, limit_p, sep_p, limit, sep, tail_octets)
+            shape_ok = True
+        except AnalysisError as e:
+            shape_ok = False
+            ctx.note(f"shape-specific fold rules not applicable ({e}); the general abstract "
+                     f"execution below decides the octet bound")
+        # ---- BOUND-GENERAL: abstract execution on A^n . R ---------------------------
+        _general(ctx, m, f, limit, sep, required=not shape_ok)
     # ---- PHYS-MODEL: to_ical / from_ical of lines and line lists (E9) ------------
     from .. import strmodel, treemodel
     ti = m.own_method("parser.Contentline.to_ical")
